@@ -103,6 +103,8 @@ theorem deliver_prefix (cfg : SCfg) (m : Sim) (e : Event) (d : List Event) (hd :
     · have ha := applyPushes_fields { m with delivered := m.delivered ++ [e], count := m.count + 1 } (.afterDelivery m.count)
       have hd := (Props.C13.applyPushes_out { m with delivered := m.delivered ++ [e], count := m.count + 1 } (.afterDelivery m.count)).1
       split
+      · exact ⟨List.prefix_append _ _, rfl, rfl⟩
+      split
       · exact ⟨by simp only; rw [hd]; exact List.prefix_append _ _, ha.1, ha.2⟩
       · exact ⟨by rw [hd]; exact List.prefix_append _ _, ha.1, ha.2⟩
 
